@@ -167,6 +167,12 @@ func runCaseLocal(raw []byte) jobResult {
 		}
 		ob, fails := runWire(&wc)
 		res.Wire, res.Fails = &ob, fails
+	case "hs":
+		var hc hsCase
+		if err := json.Unmarshal(raw, &hc); err != nil {
+			return jobResult{Err: err.Error()}
+		}
+		res.Fails = runHS(&hc)
 	case "sci":
 		var sc sciCase
 		if err := json.Unmarshal(raw, &sc); err != nil {
